@@ -21,3 +21,73 @@ Definition dumps_body (s : ustr) : ustr := flat_map dumps_char s.
 (* canonical_string: dumps body, then  \" -> "  and  ' -> \' , wrapped in single quotes *)
 Definition canonical_string (s : ustr) : ustr :=
   39%N :: replace1 39%N [92; 39]%N (replace2 92%N 34%N [34%N] (dumps_body s)) ++ [39%N].
+
+(* ---------------------------------------------------------------------- *)
+(* json.loads('"' + body + '"') for a str: CPython's py_scanstring with strict=True.
+   None = JSONDecodeError (unterminated, bare quote followed by extra data, control
+   character, invalid escape). *)
+
+Definition hex_val (c : N) : option N :=
+  if is_ascii_digit c then Some (c - 48)%N
+  else if N.leb 97 c && N.leb c 102 then Some (c - 87)%N
+  else if N.leb 65 c && N.leb c 70 then Some (c - 55)%N
+  else None.
+
+Definition hex4 (s : ustr) : option (N * ustr) :=
+  match s with
+  | a :: b :: c :: d :: r =>
+      match hex_val a, hex_val b, hex_val c, hex_val d with
+      | Some x, Some y, Some z, Some w => Some ((x * 4096 + y * 256 + z * 16 + w)%N, r)
+      | _, _, _, _ => None
+      end
+  | _ => None
+  end.
+
+Fixpoint loads_body (fuel : nat) (s : ustr) : option ustr :=
+  match fuel with
+  | O => None
+  | S f =>
+      match s with
+      | [] => Some []
+      | c :: s' =>
+          if N.eqb c 34 then None                      (* the string ends here: extra data follows *)
+          else if N.ltb c 32 then None                 (* invalid control character *)
+          else if N.eqb c 92 then
+            match s' with
+            | [] => None
+            | e :: s'' =>
+                let simple (x : N) := option_map (cons x) (loads_body f s'') in
+                if N.eqb e 34 then simple 34%N
+                else if N.eqb e 92 then simple 92%N
+                else if N.eqb e 47 then simple 47%N
+                else if N.eqb e 98 then simple 8%N
+                else if N.eqb e 102 then simple 12%N
+                else if N.eqb e 110 then simple 10%N
+                else if N.eqb e 114 then simple 13%N
+                else if N.eqb e 116 then simple 9%N
+                else if N.eqb e 117 then
+                  match hex4 s'' with
+                  | None => None
+                  | Some (u, r) =>
+                      (* a high surrogate followed by \u + low surrogate is one code point *)
+                      if N.leb 55296 u && N.leb u 56319 then
+                        match r with
+                        | 92%N :: 117%N :: r' =>
+                            match hex4 r' with
+                            | Some (u2, r'') =>
+                                if N.leb 56320 u2 && N.leb u2 57343
+                                then option_map (cons (65536 + (u - 55296) * 1024 + (u2 - 56320))%N) (loads_body f r'')
+                                else option_map (cons u) (loads_body f r)
+                            | None => option_map (cons u) (loads_body f r)
+                            end
+                        | _ => option_map (cons u) (loads_body f r)
+                        end
+                      else option_map (cons u) (loads_body f r)
+                  end
+                else None
+            end
+          else option_map (cons c) (loads_body f s')
+      end
+  end.
+
+Definition json_loads_str (body : ustr) : option ustr := loads_body (S (length body)) body.
